@@ -76,8 +76,8 @@ def run(tier):
     for e in rej:
         # locate the first offending point for the replay file
         run.violation({"kind": "igamc", "a2": e["a2"]}, {"cmd": "igamc-trace", "event": e, "why": "TraceIgamc.tla rejects the chain (accuracy 1e-12 + 1e-14 a, range, exact 1 at x <= 0, or monotonicity)"})
-    run.rule = ("shapes 2a: every value the library can produce plus a 1-in-32 stride over 1..10000 and all of 1..64 (thorough: all 10000) x a chain of 127 arguments: "
-                "-1, 0, 1e-300, around x = 1 and x = a down to one ulp, a + t sqrt a for t = -8..40 step 1/2, 2a..10a, a+690..a+745, 20a+200; "
+    run.rule = ("shapes 2a: every value the library can produce plus a 1-in-32 stride over 1..10000 and all of 1..64 (thorough: all 10000) x a chain of 140 arguments: "
+                "-1, 0, 1e-300 .. 1e-4 (one per few decades), around x = 1 and x = a down to one ulp, a + t sqrt a for t = -8..40 step 1/2, 2a..10a, a+690..a+745, 20a+200; "
                 "non-trivial point = 1e-9 < Q < 1 - 1e-9 (counted)")
     run.explanation = "Grid exploration judged by TLC against the closed finite form of Q(a,x); per-region coverage is measured and an empty region aborts the run."
     run.assumptions = ["the BigDecimal closed form of Q(a,x) for integer / half-integer a is the trusted reference (axioms + mpmath vectors)",
